@@ -87,6 +87,15 @@ ConstructFromObject(c, o, form) ==
   /\ call' = [op |-> "construct-from-object", cls |-> c, other |-> o, form |-> form]
   /\ expect' = "reject-or-member"
 
+\* an object of ANOTHER class (a subclass such as SE3 for SO3 included) supplied through the list interface of a
+\* valid object of class c: whatever the outcome, the receiver holds only members of its own class afterwards
+Mutators == {"append", "insert", "extend", "setitem"}
+MutateWithObject(c, o, m, n) ==
+  /\ call.op = "none"
+  /\ c # o
+  /\ call' = [op |-> "mutate-with-object", cls |-> c, other |-> o, mutator |-> m, len |-> n]
+  /\ expect' = "reject-or-member"
+
 Predicate(p, k) ==
   /\ call.op = "none"
   /\ k \in PredKinds(p)
@@ -100,6 +109,7 @@ Next ==
   \/ \E c \in Cls : \E form \in Forms : \E n \in 1..MaxItems : \E ks \in KindSeqs(c, n) : Construct(c, form, ks)
   \/ \E c \in Cls : \E o \in OtherCls : \E form \in Forms : ConstructFromObject(c, o, form)
   \/ \E p \in Preds : \E k \in AllKinds : Predicate(p, k)
+  \/ \E c \in Cls : \E o \in OtherCls : \E m \in Mutators : \E n \in 1..2 : MutateWithObject(c, o, m, n)
 
 Spec == Init /\ [][Next]_vars
 
